@@ -344,3 +344,62 @@ func c13r7(r *R) {
 	}
 	r.check(dialAlloc == closeAlloc, "Dialer.DialContext#gauge-label", dc.Pos(), "opened and closed under the same address variable", "a connection is counted as opened under "+dialTerm+" but as closed under a different variable ("+closeTerm+"): with a connect-to redirect the two labels differ and the active gauge drifts")
 }
+
+func init() {
+	register("C16", "R7", 2, "every rule is applied to every message: Headers.ModifyRequest / ModifyResponse reach Header.Apply for each element under no condition but the loop over the rules (an empty or nil header map is a message like any other: name:value and name; must still add their field)", c16r7)
+}
+
+func c16r7(r *R) {
+	for _, m := range []string{"ModifyRequest", "ModifyResponse"} {
+		fn := r.method("header", "Headers", m)
+		found := 0
+		var bad []string
+		var walk func(f *ssa.Function, depth int)
+		walk = func(f *ssa.Function, depth int) {
+			eachInstr(f, func(ins ssa.Instruction) {
+				c, ok := ins.(*ssa.Call)
+				if !ok {
+					return
+				}
+				g := staticCallee(c.Common())
+				if g == nil {
+					return
+				}
+				isApply := calleeName(c.Common()) == "(*header.Header).Apply"
+				inPkg := strings.Contains(fname(g), "header.") && !strings.Contains(fname(g), "martian/header") && inModule(g) && len(g.Blocks) > 0
+				if !isApply && !(inPkg && depth < 2) {
+					return
+				}
+				var extra []string
+				for _, gs := range guardStrings(c.Block()) {
+					gg := strings.TrimLeft(gs, "!")
+					if strings.Contains(gg, "< builtin len($0))") || strings.HasPrefix(gg, "next(range($0))") {
+						continue // the loop over the rules
+					}
+					extra = append(extra, gs)
+				}
+				if isApply {
+					found++
+					if len(extra) > 0 {
+						bad = append(bad, "a rule is applied only when "+strings.Join(extra, " ∧ ")+" ("+r.rel(c.Pos())+")")
+					}
+					return
+				}
+				if len(extra) > 0 {
+					// only matters if the callee leads to Apply
+					if len(calls(g, nameIs("(*header.Header).Apply"))) > 0 {
+						bad = append(bad, fname(g)+" is called only when "+strings.Join(extra, " ∧ "))
+					}
+				}
+				walk(g, depth+1)
+			})
+		}
+		walk(fn, 0)
+		r.check(found > 0 && len(bad) == 0, "Headers."+m+"#all-rules-always", fn.Pos(), "each rule's Apply is reached for every message", strings.Join(bad, "; ")+func() string {
+			if found == 0 {
+				return "no rule is applied"
+			}
+			return ": messages that fail the test keep their header untouched although add/empty rules must still act"
+		}())
+	}
+}
